@@ -412,6 +412,10 @@ impl DB {
         };
         let maybe_immutable_memtable = db_fields_guard.maybe_immutable_memtable.clone();
         let current_version = db_fields_guard.version_set.get_current_version();
+        // The memtable must be captured under the lock together with the immutable memtable and
+        // the version. If it is loaded later, a memtable rotation in between moves the entries
+        // this read must see into an immutable memtable or table file it does not look at.
+        let memtable = self.memtable();
         #[cfg(raindb_verif)]
         crate::verif::event(self.options.db_path(), "GetCapture", |_| {
             vec![
@@ -435,7 +439,7 @@ impl DB {
                 crate::verif::sched_point(self.options.db_path(), "get_before_mem");
 
                 // Check the memtable first
-                if let Ok(maybe_value) = self.memtable().get(&internal_key) {
+                if let Ok(maybe_value) = memtable.get(&internal_key) {
                     match maybe_value {
                         Some(value) => return Ok(Some(value.clone())),
                         None => {
